@@ -562,12 +562,35 @@ func TestC16Race(t *testing.T) {
 		}
 		var mu sync.Mutex
 		var viol string
+		// the clock moves while the goroutines work: in some runs it jumps past the TTL a few
+		// times, so that one goroutine refreshes an entry that others are being served from
+		jumps := rapid.IntRange(0, 6).Draw(t, "clock_jumps_past_ttl")
+		var offset atomic.Int64
+		base := time.Date(2031, 1, 1, 0, 0, 0, 0, time.UTC)
+		ech.SetTimeNowForVerif(func() time.Time { return base.Add(time.Duration(offset.Load())) })
+		defer ech.SetTimeNowForVerif(nil)
 		withZoneServer(z, nil, func(url string, srv *dnsfx.Server) {
 			r, err := ech.NewResolver(url)
 			if err != nil {
 				t.Fatalf("harness: %v", err)
 			}
 			var wg sync.WaitGroup
+			stopClock := make(chan struct{})
+			clockDone := make(chan struct{})
+			go func() {
+				defer close(clockDone)
+				for i := 0; i < jumps; i++ {
+					select {
+					case <-stopClock:
+						return
+					default:
+					}
+					runtime.Gosched()
+					time.Sleep(200 * time.Microsecond)
+					offset.Add(int64(601 * time.Second))
+				}
+			}()
+			defer func() { close(stopClock); <-clockDone }()
 			for gi := 0; gi < ng; gi++ {
 				wg.Add(1)
 				go func(plan []int) {
